@@ -611,7 +611,15 @@ func (r *Run) schedule() {
 			en = append(en, idle...)
 		}
 		if len(en) == 0 {
-			// everything is blocked: let virtual time advance
+			// everything is blocked: let virtual time advance; the run is stuck
+			// if nothing becomes runnable for Horizon of virtual time
+			if !horizonTimer.Stop() {
+				select {
+				case <-horizonTimer.C:
+				default:
+				}
+			}
+			horizonTimer.Reset(r.Horizon)
 			select {
 			case <-r.announce:
 			case <-horizonTimer.C:
